@@ -604,7 +604,7 @@ func encBase(v ssa.Value) (string, string) {
 // R8IDWidth — agent ids are parsed with enough bits.
 func R8IDWidth(c *Ctx) {
 	const rule = "R8-id-width"
-	c.R.Rule(rule, "every strconv.ParseInt(<x>.NameID, 16, N) uses N = 64 (or ParseUint with ≥ 32): NameID is %08x of a 32-bit id, so N = 32 rejects every id with the top bit set", 10)
+	c.R.Rule(rule, "every strconv.ParseInt(<x>.NameID, 16, N) uses N = 64 (or ParseUint with ≥ 32): NameID is %08x of a 32-bit id, so N = 32 rejects every id with the top bit set", 4)
 	for _, fn := range c.P.ModuleFuncs(NonYaotl) {
 		EachCall(fn, func(call ssa.CallInstruction) {
 			n := CalleeName(call)
